@@ -90,7 +90,24 @@ def install(tmp):
     ssl.SSLContext.load_cert_chain = fake_load
 
 
-def run(tls, chroot, setuid, setgid, fault, tmp, fclass=0):
+def run(tls, chroot, setuid, setgid, fault, tmp, fclass=0, start_cwd=None):
+    """start_cwd: where the server is started from (None: the source tree) -- 'root', 'below' (a directory below the
+    document root), 'sibling' (a directory next to the root whose path starts with the root's path), 'sibling-sub'"""
+    if start_cwd is not None:
+        root_ = os.path.join(tmp, "root")
+        where = {"root": root_, "below": os.path.join(root_, "pub", "sub"), "sibling": root_ + "-staging",
+                 "sibling-sub": os.path.join(root_ + ".old", "run")}[start_cwd]
+        os.makedirs(where, exist_ok=True)
+        real_chdir(where)
+    try:
+        row = _run(tls, chroot, setuid, setgid, fault, tmp, fclass)
+    finally:
+        real_chdir(repo)
+    row["start_cwd"] = start_cwd
+    return row
+
+
+def _run(tls, chroot, setuid, setgid, fault, tmp, fclass=0):
     del TRACE[:]
     FAULT_AT[0] = fault
     FAULT_CLASS[0] = fclass
@@ -170,6 +187,9 @@ def main():
                     for sg in (False, True):
                         r0 = run(tls, chroot, su, sg, None, tmp)
                         rows.append(r0)
+                        if chroot and not tls:
+                            for where in ("root", "below", "sibling", "sibling-sub"):
+                                rows.append(run(tls, chroot, su, sg, None, tmp, start_cwd=where))
                         for k in range(len(CLASSES)):
                             for i in range(len(r0["trace"])):
                                 rows.append(run(tls, chroot, su, sg, i, tmp, k))
